@@ -309,6 +309,18 @@ func runC16(c *Ctx) {
 			c.Check(ok && b, "C16.3-closing-resolved", FuncName(fn)+"|setActive(true)", p.Pos(InstrPos(in)), "reverting a refused TryClose closes the wait channel (setActive(true))")
 		}
 	}
+	// an instance whose TryClose reported closed=true is closed whatever error came with it:
+	// it may only go on to closeAndDelete, never back to active (round-5 seed C16-E)
+	refused := GBool("Object.TryClose().closed==false", CalleeIs(mTryClose), 0, false)
+	for _, fn := range fns {
+		if len(CallSinks(fn, CalleeIs(mTryClose), true)) == 0 {
+			continue
+		}
+		if sa := CallSinksX(fn, CalleeFn(setActive), false); len(sa) > 0 {
+			c.RequireGate("C16.3-reactivate-only-if-refused", fn, refused, sa, "entry.setActive")
+		}
+	}
+	c.Min("C16.3-reactivate-only-if-refused", 2)
 	// close(e.close) only in setActive / setClosed
 	for _, fn := range fns {
 		Instrs(fn, func(in ssa.Instruction) {
